@@ -9,7 +9,7 @@ out = {}
 for f in sorted(os.listdir(os.path.join(root, 'skoolkit'))):
     if f.endswith('.py'):
         tree = ast.parse(open(os.path.join(root, 'skoolkit', f)).read())
-        out[f[:-3]] = {q: {'locals': canon.local_names(fn), 'exprs': sorted(canon.shapes(fn))} for q, fn in canon.outer_functions(tree)}
+        out[f[:-3]] = {q: {'locals': canon.local_names(fn), 'exprs': sorted(canon.shapes(fn)), 'nested': sorted({n.name for n in ast.walk(fn) if isinstance(n, ast.FunctionDef) and n is not fn})} for q, fn in canon.outer_functions(tree)}
 from sa.core import cfacts
 canon._TABLE = {}          # the facts must be taken as they are
 facts = cfacts.load(root)
